@@ -35,6 +35,10 @@ def step (st : RSt) (ws : List String) : Option (RSt × String) :=
   | ["recv"] =>
     let (s, o) := Amqp.RecvCredit.step st .recv
     pure (s, render s o)
+  | ["recvbad"] =>
+    -- a delivery the application cannot decode: the same accounting, reported as `M`
+    let (s, o) := Amqp.RecvCredit.step st .recv
+    pure (s, (render s o).replace "D" "M")
   | ["dispose", k] => do
     let (s, o) := Amqp.RecvCredit.step st (.dispose (← k.toNat?))
     pure (s, render s o)
